@@ -162,9 +162,11 @@ impl<S: WebSocket, T: TimestampProvider> Task<S, T> {
         // arrive: answer it, but do not wait for the peer to tear down the transport. No
         // keepalive is running at this point, so a peer that goes silent after its `Close`
         // would otherwise keep this task (and whoever waits for it) around forever.
+        // For the same reason the answer is best-effort: a peer that stops reading after
+        // its `Close` never lets a backed-up transport flush, so do not wait for that either.
         self.wind_down(
             should_drain_frame_rx,
-            res.is_ok(),
+            res.is_ok() && !peer_closed,
             res.is_ok() && !peer_closed,
             tx_msg_rx,
             dropped_flows_rx,
